@@ -30,7 +30,6 @@ import (
 	"strings"
 	"sync"
 	"sync/atomic"
-	"time"
 
 	"reduction.dev/reduction/dkv"
 	"reduction.dev/reduction/dkv/kv"
@@ -110,6 +109,7 @@ type task struct {
 	id    uint64
 	point string // current hook point ("" = queued, not started)
 	gate  chan struct{}
+	goid  uint64
 }
 
 type arrival struct {
@@ -117,6 +117,7 @@ type arrival struct {
 	name string
 	id   uint64
 	gate chan struct{}
+	goid uint64 // the goroutine of the task
 }
 
 type hkey struct {
@@ -166,6 +167,7 @@ type world struct {
 	universe map[string][]byte
 	nbWait   chan *nbCall
 	gcCount  int // table objects collected (deletes observed in gc operations)
+	zombies  []*dkv.DB     // abandoned database objects whose tasks may still be running (dead view: nothing they do is observed)
 	gone     sync.Map      // *dkv.DB -> chan struct{}, see goneCh (entries only while a faulted restore is in progress: a key would keep the object reachable)
 	faulting atomic.Bool   // a restore with a storage read fault is in progress
 	dead     sync.Map      // *dkv.DB of crashed database objects: their tasks are not stopped at hook points any more
@@ -189,7 +191,7 @@ func hook(name string, args ...any) {
 	if _, dead := w.dead.Load(db); dead {
 		return
 	}
-	a := &arrival{db: db, name: name, gate: make(chan struct{})}
+	a := &arrival{db: db, name: name, gate: make(chan struct{}), goid: goid()}
 	if len(args) > 1 {
 		if id, ok := args[1].(uint64); ok {
 			a.id = id
@@ -270,7 +272,7 @@ func (w *world) expect(n int) error {
 			}
 			w.actComp.point, w.actComp.gate = strings.TrimPrefix(a.name, "dkv.compact."), a.gate
 		case a.name == "dkv.ckpt.walsave":
-			t := &task{kind: "ckpt", slot: s, id: a.id, point: "walsave", gate: a.gate}
+			t := &task{kind: "ckpt", slot: s, id: a.id, point: "walsave", gate: a.gate, goid: a.goid}
 			s.ckpts[a.id] = t
 		case a.name == "dkv.ckpt.listsave":
 			t := s.ckpts[a.id]
@@ -464,6 +466,71 @@ func (w *world) nextTask(s *slot, kind string, id uint64) *task {
 	return nil
 }
 
+// ------------------------------------------------------------------ goroutine identity (ordering without clocks)
+
+// goid returns the id of the calling goroutine (from the header of its stack trace).
+func goid() uint64 {
+	var buf [64]byte
+	n := runtime.Stack(buf[:], false)
+	f := strings.Fields(string(buf[:n]))
+	if len(f) < 2 {
+		return 0
+	}
+	id, _ := strconv.ParseUint(f[1], 10, 64)
+	return id
+}
+
+// goState returns the scheduler state of goroutine id as the runtime reports it ("running", "runnable", "chan receive",
+// "sync.Mutex.Lock", ...), or "" when the goroutine does not exist any more.
+func goState(id uint64) string {
+	buf := make([]byte, 1<<16)
+	for {
+		n := runtime.Stack(buf, true)
+		if n < len(buf) {
+			buf = buf[:n]
+			break
+		}
+		buf = make([]byte, 2*len(buf))
+	}
+	head := fmt.Sprintf("goroutine %d [", id)
+	s := "\n" + string(buf)
+	i := strings.Index(s, "\n"+head)
+	if i < 0 {
+		return ""
+	}
+	rest := s[i+1+len(head):]
+	j := strings.IndexAny(rest, ",]")
+	if j < 0 {
+		return ""
+	}
+	return rest[:j]
+}
+
+// awaitGone returns when goroutine id has run to its end: everything it did - in particular handing its result to whoever
+// collects it - has happened. No deadline: the goroutine is known to end (it has nothing left that could block).
+func awaitGone(id uint64) {
+	for id != 0 && goState(id) != "" {
+		runtime.Gosched()
+	}
+}
+
+// handoff is what a neighbour stand-in tells the neighbour whose answer has to arrive after its own.
+type handoff struct {
+	claimed bool   // it (or one before it) has claimed the table: the claim cancels the other calls
+	goid    uint64 // the goroutine of ExclusivelyOwnsTable that carries its answer into the result channel
+}
+
+// after waits until the answer of the neighbour that sent h has been handed over: a claim is followed by the cancellation of the
+// context (ExclusivelyOwnsTable cancels AFTER it has put the claim into the result channel); any other answer is in the result
+// channel once the goroutine that asked has ended (it does nothing else after the send).
+func (h handoff) after(ctx context.Context) {
+	if h.claimed {
+		<-ctx.Done()
+		return
+	}
+	awaitGone(h.goid)
+}
+
 // ------------------------------------------------------------------ neighbours
 
 type nbCall struct {
@@ -478,7 +545,7 @@ type neighbour struct {
 	script string
 	mu     sync.Mutex
 	asked  []string
-	twin   chan bool // script "+late": this neighbour's answer is handed to a second, slower neighbour
+	twin   chan handoff // script "+late": this neighbour's answer is handed to a second, slower neighbour
 }
 
 // lateNeighbour is a second neighbour that does not need the table and answers late: after the first neighbour has answered and,
@@ -486,20 +553,18 @@ type neighbour struct {
 // instead of failing with the cancellation.
 type lateNeighbour struct {
 	proto.UnimplementedOperator
-	from chan bool
+	from chan handoff
 }
 
 func (l *lateNeighbour) NeedsTable(ctx context.Context, uri string) (bool, error) {
-	if claimed := <-l.from; claimed {
-		<-ctx.Done()
-	}
+	(<-l.from).after(ctx)
 	return false, nil
 }
 
 func (n *neighbour) NeedsTable(ctx context.Context, uri string) (bool, error) {
 	a, err := n.answer(ctx, uri)
 	if n.twin != nil {
-		n.twin <- a
+		n.twin <- handoff{claimed: a, goid: goid()}
 	}
 	return a, err
 }
@@ -520,24 +585,22 @@ func scriptHas(script, k string) bool {
 	return false
 }
 
-// seqNeighbour is one of several neighbours whose answers arrive in a generated order: it answers only after its predecessor has
-// answered (after a claim: after the claim's cancellation; otherwise a moment later, so that the predecessor's result is delivered first).
+// seqNeighbour is one of several neighbours whose answers arrive in a generated order: it answers only after its predecessor's answer
+// has been handed to the collecting loop's channel (see handoff.after: a happens-before chain, no clock).
 type seqNeighbour struct {
 	proto.UnimplementedOperator
 	base *neighbour
 	kind string
-	prev chan bool
-	next chan bool
+	prev chan handoff
+	next chan handoff
 }
 
 func (q *seqNeighbour) NeedsTable(ctx context.Context, uri string) (bool, error) {
 	claimed := false
 	if q.prev != nil {
-		if claimed = <-q.prev; claimed {
-			<-ctx.Done()
-		} else {
-			time.Sleep(2 * time.Millisecond)
-		}
+		h := <-q.prev
+		claimed = h.claimed
+		h.after(ctx)
 	}
 	var a bool
 	var err error
@@ -554,7 +617,7 @@ func (q *seqNeighbour) NeedsTable(ctx context.Context, uri string) (bool, error)
 		a, err = q.base.answerAs(q.kind, ctx, uri)
 	}
 	if q.next != nil {
-		q.next <- claimed || a
+		q.next <- handoff{claimed: claimed || a, goid: goid()}
 	}
 	return a, err
 }
@@ -1433,12 +1496,12 @@ func (r *runner) restore(o opJ) error {
 		if strings.HasPrefix(o.Nb, "seq:") {
 			// several neighbours whose answers arrive in the listed order
 			kinds := strings.Split(strings.TrimPrefix(o.Nb, "seq:"), ",")
-			var prev chan bool
+			var prev chan handoff
 			var ans []string
 			for i, kd := range kinds {
 				q := &seqNeighbour{base: s.nb, kind: kd, prev: prev}
 				if i < len(kinds)-1 {
-					q.next = make(chan bool, 1)
+					q.next = make(chan handoff, 1)
 				}
 				prev = q.next
 				nbs = append(nbs, operator.VerifNeighbor{KeyGroupRange: partitioning.KeyGroupRange{Start: 0, End: 65536}, Operator: q})
@@ -1449,7 +1512,7 @@ func (r *runner) restore(o opJ) error {
 			r.tag("nb-order-" + strings.TrimPrefix(o.Nb, "seq:"))
 		} else if o.Nb != "" && late {
 			// two neighbours: the scripted one and a slower one whose clean "not needed" arrives after the first answer
-			s.nb.twin = make(chan bool, 1)
+			s.nb.twin = make(chan handoff, 1)
 			nbs = append(nbs, operator.VerifNeighbor{KeyGroupRange: partitioning.KeyGroupRange{Start: 0, End: 65536}, Operator: s.nb})
 			nbs = append(nbs, operator.VerifNeighbor{KeyGroupRange: partitioning.KeyGroupRange{Start: 0, End: 65536}, Operator: &lateNeighbour{from: s.nb.twin}})
 			r.tag("two-neighbours-late-clean-answer")
@@ -1629,9 +1692,9 @@ func (r *runner) restore(o opJ) error {
 
 // race: the list save of checkpoint o.ID is parked INSIDE the commit of the checkpoints file (after it took its view of the list);
 // meanwhile a second save of the same database is issued - the list save of checkpoint o.ID2, or a retention update o.IDs (with an
-// optional storage fault on ITS save). In the code as it is the second one waits for the first; the harness gives it a bounded time
-// to prove otherwise (if it completes while the first is parked, the saves overlapped), then lets the first one commit. The outcome
-// of a correct implementation does not depend on that time. One observation is emitted for both steps.
+// optional storage fault on ITS save). In the code as it is the second one waits for the first; the harness lets the second one run until
+// it has either completed (the saves overlapped) or come to rest waiting (goroutine state, no clock), then lets the first one commit.
+// One observation is emitted for both steps.
 func (r *runner) race(o opJ) error {
 	w := r.w
 	s := r.slot(o.DB)
@@ -1689,6 +1752,7 @@ func (r *runner) race(o opJ) error {
 	}
 	bDone := make(chan res, 1)
 	var secondOp string
+	var bGo uint64 // the goroutine that performs the second save
 	if !retain {
 		// Checkpoint(id2): locked part, WAL save, then its list save is issued
 		s.ids[o.ID2] = true
@@ -1704,6 +1768,7 @@ func (r *runner) race(o opJ) error {
 		}
 		tb = s.ckpts[o.ID2]
 		delete(s.ckpts, o.ID2)
+		bGo = tb.goid // the goroutine of Checkpoint(id2)'s asynchronous part: it does the list save
 		close(tb.gate)
 		go func() { h, err := waitB(); bDone <- res{h, err} }()
 		secondOp = ""
@@ -1715,7 +1780,9 @@ func (r *runner) race(o opJ) error {
 		for i, id := range o.IDs {
 			ids[i] = fmt.Sprint(id)
 		}
+		started := make(chan uint64, 1)
 		go func() {
+			started <- goid()
 			var err error
 			func() {
 				defer func() {
@@ -1727,6 +1794,7 @@ func (r *runner) race(o opJ) error {
 			}()
 			bDone <- res{err: err}
 		}()
+		bGo = <-started
 		if o.Fail == 1 {
 			secondOp = fmt.Sprintf("ORetainF %d %s 1", s.idx, hx.CoqList(ids, "N"))
 		} else {
@@ -1746,12 +1814,32 @@ func (r *runner) race(o opJ) error {
 			}
 		}
 	}
+	// B either completes while A is parked inside its commit (the saves overlapped), or it comes to rest: its goroutine is neither
+	// running nor runnable, i.e. it waits for something only A can give (the save lock in the code as it is). No clock: the loop ends
+	// on one of these two events; a goroutine that merely has not been scheduled yet is "runnable" and is waited for.
 	var rb *res
-	select {
-	case x := <-bDone:
-		rb = &x
-		r.tag("race-second-save-overtook-the-parked-one")
-	case <-time.After(60 * time.Millisecond):
+waitB:
+	for {
+		select {
+		case x := <-bDone:
+			rb = &x
+			r.tag("race-second-save-overtook-the-parked-one")
+			break waitB
+		default:
+		}
+		switch st := goState(bGo); {
+		case st == "running" || st == "runnable" || st == "syscall" || st == "preempted" || st == "copystack" || st == "waiting" || strings.HasPrefix(st, "GC ") || strings.Contains(st, "the world"):
+			runtime.Gosched() // on its way (or held up by the runtime for a moment)
+		case st == "":
+			// the goroutine has ended: its result is on its way through bDone (checkpoint path: through the waiter goroutine)
+			x := <-bDone
+			rb = &x
+			r.tag("race-second-save-overtook-the-parked-one")
+			break waitB
+		default:
+			r.tag("race-second-save-waits-for-the-parked-one")
+			break waitB
+		}
 	}
 	// A commits
 	close(s.fs.gateRel)
@@ -1795,6 +1883,7 @@ func (r *runner) voidTasks(s *slot) {
 	s.fs.dead.Store(true)
 	if s.db != nil {
 		w.dead.Store(s.db, true)
+		w.zombies = append(w.zombies, s.db) // its tasks run on by themselves: awaited at the end of the case
 	}
 	keep := func(q []*task) []*task {
 		out := q[:0:0]
@@ -2220,6 +2309,11 @@ func (r *runner) cleanup() {
 		}
 		s.db, s.waits, s.op = nil, nil, nil
 	}
+	// no goroutine of an abandoned object may run into the next case
+	for _, z := range w.zombies {
+		_ = z.WaitOnTasks()
+	}
+	w.zombies = nil
 	verifhook.Set(nil)
 	cur.Store(nil)
 	runtime.GC()
